@@ -26,7 +26,7 @@ from translate import c11_formats as F
 # record name, stream name in c11_formats.STREAMS, branch flags, layout tables it applies to
 ALL_L = ['STANDARD', 'V19', 'INFRA', 'VITAMIN', 'CHAOS']
 NONVIT_L = ['STANDARD', 'V19', 'INFRA', 'CHAOS']
-RECORDS: list[tuple[str, str, dict[str, bool], list[str]]] = [
+RECORDS: list[tuple[str, str, dict[str, Any], list[str]]] = [
     ('planes', 'planes', {}, ALL_L),
     ('vertexes', 'vertexes', {}, ALL_L),
     ('primitives', 'primitives', {'is_vitamin': False}, NONVIT_L),
@@ -47,10 +47,17 @@ RECORDS: list[tuple[str, str, dict[str, bool], list[str]]] = [
     ('cubemaps', 'cubemaps', {}, ALL_L),
     ('overlay_fades', 'overlay_fades', {}, ALL_L),
     ('overlay_system_levels', 'overlay_system_levels', {}, ALL_L),
+    # detail props: one struct, three classes; the branch taken is fixed by the class (writer) / the type codes (reader).
+    # The codes of each class are the ones proved to dispatch correctly by detail_kind_dispatch (BspFormats_gen).
+    ('detail_model', 'dprp_detail', {'mro': ['DetailPropModel', 'DetailProp'], 'type_codes': [0]}, ALL_L),
+    ('detail_sprite', 'dprp_detail', {'mro': ['DetailPropSprite', 'DetailProp'], 'type_codes': [1]}, ALL_L),
+    ('detail_shape', 'dprp_detail', {'mro': ['DetailPropShape', 'DetailPropSprite', 'DetailProp'], 'type_codes': [2, 3]}, ALL_L),
 ]
 FLAG_NAMES = {'is_vitamin': 'is_vitamin', 'self.is_vitamin': 'is_vitamin', 'has_ambient': 'has_ambient'}
 PASSTHROUGH = {'int', 'float', 'round', 'bool', 'abs', 'coord', 'bytes', 'list', 'tuple'}
 XYZ = 'xyz'
+COMPONENTS = {'Vec': ['x', 'y', 'z'], 'Angle': ['pitch', 'yaw', 'roll']}     # positional constructor arguments of srctools.math
+CONST = '<constant>'
 
 
 def parents_of(fn: ast.AST) -> dict[int, ast.AST]:
@@ -61,10 +68,29 @@ def parents_of(fn: ast.AST) -> dict[int, ast.AST]:
     return par
 
 
-def decide(test: ast.AST, flags: dict[str, bool]) -> bool | None:
+def decide(test: ast.AST, flags: dict[str, Any]) -> bool | None:
     s = ast.unparse(test)
     if s in FLAG_NAMES and FLAG_NAMES[s] in flags:
         return flags[FLAG_NAMES[s]]
+    # isinstance(prop, C) for an object whose exact class (with its ancestors) is given
+    if isinstance(test, ast.Call) and ast.unparse(test.func) == 'isinstance' and len(test.args) == 2 and 'mro' in flags \
+            and isinstance(test.args[1], ast.Name):
+        return test.args[1].id in flags['mro']
+    # detail_type == k / detail_type in (k, ...) for a record whose type code lies in a given set
+    if isinstance(test, ast.Compare) and len(test.ops) == 1 and ast.unparse(test.left) == 'detail_type' and 'type_codes' in flags:
+        c = test.comparators[0]
+        if isinstance(test.ops[0], ast.Eq) and isinstance(c, ast.Constant):
+            vals = {c.value}
+        elif isinstance(test.ops[0], ast.In) and isinstance(c, ast.Tuple) and all(isinstance(e, ast.Constant) for e in c.elts):
+            vals = {e.value for e in c.elts}
+        else:
+            return None
+        codes = set(flags['type_codes'])
+        if codes <= vals:
+            return True
+        if not (codes & vals):
+            return False
+        return None
     if isinstance(test, ast.UnaryOp) and isinstance(test.op, ast.Not):
         d = decide(test.operand, flags)
         return None if d is None else not d
@@ -83,7 +109,7 @@ def decide(test: ast.AST, flags: dict[str, bool]) -> bool | None:
 class Live:
     """The statements / expressions of a function that are live under a flag configuration."""
 
-    def __init__(self, fn: ast.FunctionDef, flags: dict[str, bool]) -> None:
+    def __init__(self, fn: ast.FunctionDef, flags: dict[str, Any]) -> None:
         self.fn, self.flags = fn, flags
         self.par = parents_of(fn)
         self.dead: set[int] = set()
@@ -170,14 +196,16 @@ class Reader:
     def build(self) -> None:
         for n in self.live.nodes:
             if isinstance(n, ast.Call) and isinstance(n.func, ast.Name) and n.func.id in self.classes and not n.keywords:
+                if 'mro' in self.live.flags and n.func.id != self.live.flags['mro'][0] and n.func.id.startswith('DetailProp'):
+                    raise TranslateError(f'{self.fn.name}: line {n.lineno}: {n.func.id}(...) is live for class {self.live.flags["mro"][0]}')
                 fields = self.classes[n.func.id]
                 if len(n.args) > len(fields):
                     raise TranslateError(f'{self.fn.name}: line {n.lineno}: {n.func.id}(...) has more arguments than fields')
                 for a, f in zip(n.args, fields):
-                    if isinstance(a, ast.Call) and isinstance(a.func, ast.Name) and a.func.id == 'Vec' and len(a.args) == 3:
+                    if isinstance(a, ast.Call) and isinstance(a.func, ast.Name) and a.func.id in COMPONENTS and len(a.args) == 3:
                         for k, c in enumerate(a.args):
                             for v, r in names_with_roles(c):
-                                self.tok(v, with_role(f'{f}.{XYZ[k]}', r))
+                                self.tok(v, with_role(f'{f}.{COMPONENTS[a.func.id][k]}', r))
                     elif isinstance(a, ast.Tuple):
                         for k, c in enumerate(a.elts):
                             for v, r in names_with_roles(c):
@@ -258,6 +286,10 @@ def reader_slots(fn: ast.FunctionDef, site: dict, flags: dict[str, bool], classe
             target, it = p.target, p.iter
             break
         cur = p
+    pa = par.get(id(call))
+    if target is None and isinstance(pa, ast.Assign) and pa.value is call and len(pa.targets) == 1 \
+            and isinstance(pa.targets[0], (ast.Tuple, ast.List)):
+        target, it = pa.targets[0], call         # (a, b, ...) = struct_read(fmt, buf)
     if target is None:
         raise TranslateError(f'{fn.name}: line {call.lineno}: the record site is not the iterable of a loop')
     # which part of the target receives the record
@@ -288,7 +320,11 @@ def reader_slots(fn: ast.FunctionDef, site: dict, flags: dict[str, bool], classe
     for v in slots_v:
         d = sorted(rd.dests(v.id))
         if not d:
-            raise TranslateError(f'{fn.name}: unpacked variable `{v.id}` reaches no attribute of a constructed object')
+            if 'type_codes' in flags:
+                # a slot this class does not use (or the type code itself): the writer must put a constant there
+                d = [CONST]
+            else:
+                raise TranslateError(f'{fn.name}: unpacked variable `{v.id}` reaches no attribute of a constructed object')
         out.append(d)
     return out
 
@@ -407,13 +443,22 @@ class Writer:
             return out
         raise TranslateError(f'{self.fn.name}: line {getattr(e, "lineno", 0)}: expression not recognised in a packed value: {ast.unparse(e)[:60]}')
 
+    def is_constant(self, e: ast.AST) -> bool:
+        """A literal, or a local whose every live assignment is a literal."""
+        if isinstance(e, ast.Constant):
+            return True
+        if isinstance(e, ast.Name) and e.id in self.assigns:
+            return all(isinstance(v, ast.Constant) for v, _ in self.assigns[e.id])
+        return False
+
     def arity(self, e: ast.AST) -> list[str]:
         """Labels of the components of a starred attribute, from the class annotation."""
         ch = self.attr_chain(e)
         if ch is None or len(ch[1]) != 1:
             raise TranslateError(f'{self.fn.name}: line {e.lineno}: starred argument is not an attribute of the record')
         attr = ch[1][0]
-        types = {c[attr] for c in self.ann.values() if attr in c}
+        mro = self.live.flags.get('mro')
+        types = {c[attr] for cn, c in self.ann.items() if attr in c and (mro is None or cn in mro)}
         if len(types) != 1:
             raise TranslateError(f'{self.fn.name}: attribute `{attr}` has no unique annotation ({sorted(types)})')
         t = types.pop()
@@ -473,6 +518,8 @@ def writer_slots(fn: ast.FunctionDef, site: dict, flags: dict[str, bool], ann: d
             out.append([a])
             continue
         t = sorted(wr.W(a, '', frozenset()))
+        if not t and 'mro' in flags and wr.is_constant(a):
+            t = [CONST]
         if not t:
             raise TranslateError(f'{fn.name}: line {a.lineno}: packed value `{ast.unparse(a)[:50]}` mentions no attribute of the record')
         out.append(t)
@@ -654,6 +701,9 @@ def generate(tree: ast.Module) -> tuple[str, dict]:
         f'Definition face_prim_bits : N * N * N * N := ({fp[0]}%N, {fp[1]}%N, {fp[2]}%N, {fp[3]}%N).',
         '(* pack arguments of the records above that apply `&` or `%` to a value (silent narrowing before struct can reject) *)',
         'Definition masked_before_pack : list string := [' + '; '.join(F.coq_s(m.replace('"', "'")) for m in MASKED) + '].',
+        '(* detail-prop record variants: class, type codes assumed for the reader\'s branch *)',
+        'Definition detail_record_codes : list (string * list nat) := [' + '; '.join(
+            f'({F.coq_s(fl["mro"][0])}, [{"; ".join(str(c) + "%nat" for c in fl["type_codes"])}])' for _n, _s, fl, _l in RECORDS if 'mro' in fl) + '].',
         f'Definition pack_calls_in_census : nat := {side["pack_calls_in_census"]}%nat.',
         f'Definition leaf_flag_values : list N := [{"; ".join(str(v) for v in flag_vals)}]%N.',
         f'Definition leaf_area_shift_from_layout : bool := {"true" if sc["leaf_area_shift_from_layout"] else "false"}.',
